@@ -93,8 +93,8 @@ fn canon2(code: &[u8], input: &[u8], bits: u32, max_steps: usize, refuse_at: usi
             halted = true;
             break;
         }
-        if steps >= max_steps {
-            break;
+        if steps >= max_steps || p < 16 || p + 16 >= TAPE {
+            break; // step bound reached, or the reference tape left: treated as "did not halt"
         }
         steps += 1;
         match code[pc] {
